@@ -15,10 +15,15 @@ def cleanUpState : M Unit := do
   modifyRest fun r => { r with hx := r.hx.map fun e => (e.1, { e.2 with scores := [] }) }
   let ix ← getIx
   let r ← getRest
+  -- (repo fix 7dd9b7a, formerly finding `cleanup-dangling-parent` of C11): `needed_parent_uids` — an instance that a flow with
+  -- `activated > 0` names as its parent stays (its `flow_id` is looked up when that flow is deactivated / restarted)
+  let needed : List (Option FUid) := r.fx.filterMap fun e => if e.2.activated > 0 then some e.2.parentUid else none
   let mut toRemove : List FUid := []
   for i in ix.insts do
     match OMap.lookup i.uid r.fx with
-    | some x => if i.status.done && r.clock - x.statusUpdated > 5 && x.activated = 0 then toRemove := toRemove ++ [i.uid]
+    | some x =>
+      if i.status.done && r.clock - x.statusUpdated > 5 && x.activated = 0 && !needed.contains (some i.uid) then
+        toRemove := toRemove ++ [i.uid]
     | none => unsupported "instance without extras"
   for u in toRemove do
     let x ← getInstX u
